@@ -69,6 +69,7 @@ func cmdRun(args []string) int {
 	maxPaths := fs.Int("max-paths", 0, "path budget")
 	steps := fs.Int("steps", 0, "step budget per path")
 	verbose := fs.Bool("v", false, "verbose")
+	thorough := fs.Bool("thorough", false, "thorough-tier bounds (vfBound)")
 	fs.Parse(args)
 	t0 := time.Now()
 	prog, err := loadProgram()
@@ -77,7 +78,7 @@ func cmdRun(args []string) int {
 		return 2
 	}
 	fmt.Printf("loaded in %.1fs\n", time.Since(t0).Seconds())
-	ex := &sym.Explorer{Prog: prog, Workers: *workers, Solver: *solver, Cfg: sym.Config{StepBudget: *steps}}
+	ex := &sym.Explorer{Prog: prog, Workers: *workers, Solver: *solver, Cfg: sym.Config{StepBudget: *steps, Thorough: *thorough}}
 	if err := ex.Start(); err != nil {
 		fmt.Fprintln(os.Stderr, err)
 		return 2
